@@ -193,7 +193,7 @@ def Node.hasSvc (n : Node) (key s : Nat) : Bool := n.svcs.any (fun x => x.1 == k
     modelled: they must be transparent. -/
 def Node.removePeer (n : Node) (key : Nat) : Node :=
   match n.findPeer key with
-  | none => { n with svcs := n.svcs.filter (fun x => x.1 != key) }
+  | none => n          -- (the harness only calls Network.remove_peer for a verified peer)
   | some p =>
     { n with all := n.all.filter (fun w => !p.addrs.contains w.addr),
              peers := n.peers.filter (fun q => q.key != key),
@@ -430,6 +430,16 @@ def World.remap (w : World) (i : Nat) (box : Nat) (wan : Addr) : World :=
   match w.hosts[i]? with
   | none => w
   | some h => { w with hosts := w.hosts.set i { h with box := box, wan := wan, sent := [] } }
+
+/-- the host moves to a network with another LAN numbering: new LAN address, box and WAN mapping, empty filter.  The
+    machine's interface address follows (get_lan_addresses()), but `my_estimated_lan` does NOT: the code computes it once
+    and caches it (endpoint.py, `_my_estimated_lan`), so the node keeps advertising the old LAN address. -/
+def World.relan (w : World) (i : Nat) (box : Nat) (lan wan : Addr) : World :=
+  match w.hosts[i]?, w.nodes[i]? with
+  | some h, some n =>
+    { w with hosts := w.hosts.set i { h with lan := lan, box := box, wan := wan, sent := [] },
+             nodes := w.nodes.set i { n with machineIp := lan.ip } }
+  | _, _ => w
 
 def World.removePeerAt (w : World) (i key : Nat) : World :=
   match w.nodes[i]? with
